@@ -47,6 +47,23 @@ CLAIMED = {
         'a second pass puts numpy arrays in the trees.',
         'Bounded: trees of depth<=2 over keys {a,b}, sequences<=2, paths<=3, SELF/SKIP as single-element paths.',
         '5/C18'),
+    'C04': (
+        'TLA+ spec IterQueue.tla (lock/condvar level, one action per scheduler segment) model-checked by TLC for safety, deadlock and termination; state-graph edge cover replayed on the real IteratorQueue under a deterministic scheduler with state comparison after every step; bounded-preemption exploration of the real code',
+        'TLC exhausts every interleaving of the bounded configurations (producers x consumers x capacity x consumer mode) for NoDup, Causal, '
+        'PerProducerOrder, FaultFreeEnd, EndOnlyWhenDone, deadlock freedom and termination under weak fairness; the dumped state graphs are '
+        'covered edge by edge on the real code (projection of locks, waiter queues, counters, queue content and deliveries equal to the spec '
+        'state after each step), so the exhaustive verdict transfers to the code for those configurations; the real code is also explored '
+        'independently of the spec (all schedules with <=2 preemptions up to a budget, random schedules) and each execution judged.',
+        'Bounded: <=3 producers, <=2 consumers, capacity 0/1/2, <=3 items per producer. Segments between yield points are assumed atomic '
+        '(mover argument); enqueue_done is one atomic read; FIFO notify as in CPython.',
+        '5/C04'),
+    'C05': (
+        'same IterQueue.tla with fault actions (producer failure at any index, external stop at any point, timeouts, ignore_error) model-checked by TLC; edge-cover replay and exploration on the real code',
+        'As C04, with fault actions: TLC checks FailureSeen (no clean end-of-stream after a failure), deadlock freedom and termination for every '
+        'failing position and every point at which maybe_stop arrives; counter-examples and edge covers are replayed on the real queue. '
+        'The specification without the recorded repairs is rejected by TLC (sensitivity).',
+        'Bounded as C04. Time is not modelled: with a timeout configured every wait may time out.',
+        '5/C05'),
 }
 
 PENDING = {}
